@@ -292,3 +292,198 @@ def build_l2(dst, harnesses):
 def common_hash():
     """sha of the extracted text every L2 harness depends on"""
     return X.sha(*[t for (_r, t) in common_texts().values()])
+
+
+# ------------------------------------------------------------------------------------------------ L0 crate
+L0_HARNESSES = (
+    [("l0r_read_%d" % w, "check_read(%d)" % w, "src/state/registers.rs", "reg_read_%d" % w) for w in (8, 16, 32, 64)]
+    + [("l0r_write_%d" % w, "check_write(%d)" % w, "src/state/registers.rs", "reg_write_%d" % w) for w in (8, 16, 32, 64)]
+    + [("l0r_128", "check_128()", "src/state/registers.rs", "reg_read_128/reg_write_128/internal_reg_*_128")]
+    + [("l0f_set_flags_%d" % w, "check_set_flags(%d)" % w, "src/state/flags.rs", "set_flags_u%d" % w) for w in (8, 16, 32, 64)]
+    + [("l0t_read_%d" % (8 * n), "check_mem_read(%d)" % n, "src/state/memory.rs", "mem_read_%d" % (8 * n)) for n in (1, 2, 4, 8, 16)]
+    + [("l0t_write_%d" % (8 * n), "check_mem_write(%d)" % n, "src/state/memory.rs", "mem_write_%d" % (8 * n)) for n in (1, 2, 4, 8, 16)]
+)
+
+L0_MEM_METHODS = {"mem_read_64", "mem_read_32", "mem_read_16", "mem_read_8", "mem_write_64", "mem_write_32", "mem_write_16",
+                  "mem_write_8", "mem_write_128", "mem_read_128", "internal_mem_write_128", "internal_mem_read_128"}
+
+
+def l0_texts():
+    out = {}
+    out["helpers/macros.rs"] = ("src/helpers/macros.rs", X.whole_file("src/helpers/macros.rs"))
+    out["helpers/operand.rs"] = ("src/helpers/operand.rs", X.whole_file("src/helpers/operand.rs"))
+    out["state/flags.rs"] = ("src/state/flags.rs", X.whole_file("src/state/flags.rs"))
+    reg = X.whole_file("src/state/registers.rs")
+
+    def keep_item(h):
+        h1 = h.strip()
+        if h1.startswith("use "):
+            return not re.search(r"lazy_static|rand::|serde|std::collections|wasm_bindgen", h1)
+        return ("enum SupportedRegister" in h1 or h1.startswith("impl From<") or re.match(r"impl SupportedRegister\b", h1) is not None)
+    # every method of the impl Axecutor blocks is kept (that is the unit under proof)
+    out["state/registers.rs"] = ("src/state/registers.rs",
+                                 X.select_methods(reg, lambda n: True, keep_item) + "\n// E7: the lazy_static tables resolve to their contracts\nuse crate::model::shim::{HIGHER_BYTE_REGISTERS, REGISTER_TO_QWORD};\n")
+    mem = X.whole_file("src/state/memory.rs")
+
+    def keep_mem_item(h):
+        h1 = h.strip()
+        if h1.startswith("use "):
+            return bool(re.search(r"crate::|std::convert::TryInto", h1)) and "wasm_bindgen" not in h1
+        return re.search(r"pub const PROT_", h1) is not None
+    out["state/memory.rs"] = ("src/state/memory.rs", X.select_methods(mem, lambda n: n in L0_MEM_METHODS, keep_mem_item))
+    return out
+
+
+def plan_l0():
+    hs = []
+    for (name, call, f, fn) in L0_HARNESSES:
+        decl = "#[kani::proof]\n#[kani::unwind(90)]\nfn %s() {\n    crate::harness::l0::%s\n}\n" % (name, call)
+        hs.append(dict(name=name, decl=decl, file=f, fn=fn, unit=name.split("_")[0]))
+    return hs
+
+
+def l0_hash():
+    parts = [t for (_r, t) in l0_texts().values()]
+    for rel in ["model/errors.rs", "model/debug.rs", "model/verif_hooks.rs", "model/regfile.rs", "model/l0/axecutor.rs", "model/l0/shim.rs", "harness/l0.rs"]:
+        parts.append(open(os.path.join(KANI, rel)).read())
+    parts.append(CRATE_LAYOUT_VERSION)
+    return X.sha(*parts)
+
+
+def build_l0(dst, harnesses):
+    if os.path.exists(dst):
+        shutil.rmtree(dst)
+    src = os.path.join(dst, "src")
+    extracted = {}
+    for rel_dst, (rel_repo, t) in l0_texts().items():
+        write(os.path.join(src, rel_dst), t)
+        extracted[rel_dst] = dict(repo=rel_repo, sha256=X.sha(t), lines=t.count("\n") + 1)
+    for a, b in [("model/errors.rs", "helpers/errors.rs"), ("model/debug.rs", "helpers/debug.rs"), ("model/verif_hooks.rs", "verif_hooks.rs"),
+                 ("model/regfile.rs", "model/regfile.rs"), ("model/l0/axecutor.rs", "axecutor.rs"), ("model/l0/shim.rs", "model/shim.rs"),
+                 ("harness/l0.rs", "harness/l0.rs")]:
+        copy(os.path.join(KANI, a), os.path.join(src, b))
+    # the enum's variants, in declaration order, cut from the real text (index = discriminant)
+    variants = X.enum_variants(X.read("src/state/registers.rs"), "SupportedRegister")
+    write(os.path.join(src, "model/allregs.rs"),
+          "use crate::state::registers::SupportedRegister;\npub const N_ALL: usize = %d;\npub const ALL_REGS: [SupportedRegister; N_ALL] = [\n%s];\n" % (
+              len(variants), "".join("    SupportedRegister::%s,\n" % v for v in variants)))
+    write(os.path.join(src, "harness/gen_l0.rs"), "".join(h["decl"] for h in harnesses))
+    lib = ["#![allow(warnings)]\n", FORMAT_SHADOW,
+           "pub mod verif_hooks;\npub mod model { pub mod regfile; pub mod shim; pub mod allregs; }\n",
+           "pub mod helpers { pub mod debug; pub mod errors; pub mod macros; pub mod operand; }\n",
+           "pub mod state { pub mod flags; pub mod registers; pub mod memory; }\n",
+           "pub mod axecutor;\n",
+           "pub mod harness { #[cfg(kani)] pub mod l0; #[cfg(kani)] pub mod gen_l0; }\n"]
+    write(os.path.join(src, "lib.rs"), "".join(lib))
+    write(os.path.join(dst, "Cargo.toml"), CARGO_TOML.format(name="axl0"))
+    write(os.path.join(dst, ".cargo/config.toml"), "[net]\noffline = true\n")
+    write(os.path.join(dst, "build.rs"), "fn main() {\n    println!(\"cargo:rustc-cfg=ax_verif\");\n    println!(\"cargo:rustc-check-cfg=cfg(ax_verif)\");\n}\n")
+    shutil.copyfile(os.path.join(X.REPO, "Cargo.lock"), os.path.join(dst, "Cargo.lock"))
+    return extracted
+
+
+# ------------------------------------------------------------------------------------------------ L3 crate
+def erase_async(t):
+    """E6: `async fn` -> `fn`, `.await` removed.  Sound in the native configuration only: every awaited future is one
+    of step/execute/run_before/run_after/run_functions, none of which contains a suspension point there."""
+    n1 = len(re.findall(r"\basync\s+fn\b", t))
+    t = re.sub(r"\basync(\s+)fn\b", r"     \1fn", t)
+    n2 = len(re.findall(r"\.await\b", t))
+    t = re.sub(r"\.await\b", "      ", t)
+    return t, n1, n2
+
+
+def redirect_hashmap(t):
+    """E7: std::collections::HashMap -> the finite-map shim (kani/model/l3/fmap.rs)"""
+    t2 = re.sub(r"collections::HashMap,", lambda m: " " * len(m.group(0)), t)
+    t2 = re.sub(r"^use std::collections::HashMap;", lambda m: " " * len(m.group(0)), t2, flags=re.M)
+    return t2 + "\n// E7: HashMap resolves to the finite-map shim\nuse crate::model::fmap::HashMap;\n"
+
+
+def l3_texts(real_trace):
+    out = {}
+    ex = X.whole_file("src/state/execute.rs")
+    ex = X.select_methods(ex, lambda n: n in ("step", "execute", "set_max_instructions"),
+                          lambda h: h.strip().startswith("use ") and "iced_x86::{Decoder" not in h and "wasm_bindgen" not in h)
+    ex, n1, n2 = erase_async(ex)
+    out["state/execute.rs"] = ("src/state/execute.rs", "use iced_x86::{Instruction, Register};\n" + ex if False else ex + "\nuse iced_x86::Register;\n")
+    hk = X.whole_file("src/state/hooks.rs")
+    hk, n3, n4 = erase_async(hk)
+    out["state/hooks.rs"] = ("src/state/hooks.rs", redirect_hashmap(hk))
+    gen = X.whole_file("src/auto/generated.rs")
+    out["auto/generated.rs"] = ("src/auto/generated.rs", X.select_items(gen, lambda h: not re.match(r"\s*impl Axecutor\b", h.strip())))
+    mac = X.whole_file("src/helpers/macros.rs")
+    out["helpers/macros.rs"] = ("src/helpers/macros.rs", X.select_items(mac, lambda h: re.match(r"\s*(macro_rules!|pub\(crate\) use|pub\(crate\) const)", h.strip()) is not None))
+    tr = X.whole_file("src/helpers/trace.rs")
+    if not real_trace:
+        tr = X.select_items(tr, lambda h: ("struct TraceEntry" in h or "enum TraceVariant" in h or h.strip().startswith("use ")) and "wasm_bindgen" not in h)
+    out["helpers/trace.rs"] = ("src/helpers/trace.rs", tr)
+    sy = X.whole_file("src/helpers/syscalls.rs")
+    sy = re.sub(r"^use rand::Rng;", lambda m: " " * len(m.group(0)), sy, flags=re.M)
+    sy = redirect_hashmap(sy) + "// E7: the thread RNG is replaced by nondeterministic choice (C20's stated exception)\nuse crate::model::rand::{self, Rng};\n"
+    out["helpers/syscalls.rs"] = ("src/helpers/syscalls.rs", sy)
+    reg = X.whole_file("src/state/registers.rs")
+
+    def keep(h):
+        h1 = h.strip()
+        return (h1.startswith("use iced_x86") or "enum SupportedRegister" in h1 or h1.startswith("impl From<")
+                or re.match(r"impl SupportedRegister\b", h1) is not None)
+    out["state/registers.rs"] = ("src/state/registers.rs", X.select_items(reg, keep))
+    return out, dict(async_fns=n1 + n3, awaits=n2 + n4)
+
+
+L3_HARNESSES = [
+    ("l3_step_b0_a0", "check_step(0, 0)", 10, False),
+    ("l3_step_b1_a1", "check_step(1, 1)", 10, False),
+    ("l3_step_b2_a1", "check_step(2, 1)", 10, False),
+    ("l3_step_b1_a2", "check_step(1, 2)", 10, False),
+    ("l3_step_b3_a3", "check_step(3, 3)", 12, False),
+    ("l3_execute", "check_execute()", 8, False),
+]
+
+
+def plan_l3():
+    hs = []
+    for (name, call, unwind, real_trace) in L3_HARNESSES:
+        decl = "#[kani::proof]\n#[kani::unwind(%d)]\nfn %s() {\n    crate::harness::l3::%s\n}\n" % (unwind, name, call)
+        hs.append(dict(name=name, decl=decl, real_trace=real_trace))
+    return hs
+
+
+def l3_hash(real_trace=False):
+    t, _ = l3_texts(real_trace)
+    parts = [x for (_r, x) in t.values()]
+    for rel in ["model/errors.rs", "model/debug.rs", "model/verif_hooks.rs", "model/regfile.rs", "model/l3/axecutor.rs", "model/l3/fmap.rs", "model/l3/rand.rs", "harness/l3.rs"]:
+        parts.append(open(os.path.join(KANI, rel)).read())
+    parts.append(CRATE_LAYOUT_VERSION)
+    return X.sha(*parts)
+
+
+def build_l3(dst, harnesses, real_trace=False):
+    if os.path.exists(dst):
+        shutil.rmtree(dst)
+    src = os.path.join(dst, "src")
+    extracted = {}
+    texts, meta = l3_texts(real_trace)
+    for rel_dst, (rel_repo, t) in texts.items():
+        write(os.path.join(src, rel_dst), t)
+        extracted[rel_dst] = dict(repo=rel_repo, sha256=X.sha(t), lines=t.count("\n") + 1)
+    for a, b in [("model/errors.rs", "helpers/errors.rs"), ("model/debug.rs", "helpers/debug.rs"), ("model/verif_hooks.rs", "verif_hooks.rs"),
+                 ("model/regfile.rs", "model/regfile.rs"), ("model/l3/axecutor.rs", "axecutor.rs"), ("model/l3/fmap.rs", "model/fmap.rs"),
+                 ("model/l3/rand.rs", "model/rand.rs"), ("harness/l3.rs", "harness/l3.rs")]:
+        copy(os.path.join(KANI, a), os.path.join(src, b))
+    write(os.path.join(src, "harness/gen_l3.rs"), "".join(h["decl"] for h in harnesses))
+    lib = ["#![allow(warnings)]\n", FORMAT_SHADOW,
+           "pub mod verif_hooks;\npub mod model { pub mod regfile; pub mod fmap; pub mod rand; }\n",
+           "pub mod helpers { pub mod debug; pub mod errors; pub mod macros; pub mod trace; pub mod syscalls; }\n",
+           "pub mod state { pub mod registers; pub mod hooks; pub mod execute; }\n",
+           "pub mod auto { pub mod generated; }\n",
+           "pub mod axecutor;\n",
+           "pub mod harness { pub mod l3; #[cfg(kani)] pub mod gen_l3; }\n"]
+    write(os.path.join(src, "lib.rs"), "".join(lib))
+    write(os.path.join(dst, "Cargo.toml"), CARGO_TOML.format(name="axl3"))
+    write(os.path.join(dst, ".cargo/config.toml"), "[net]\noffline = true\n")
+    cfgs = ["ax_verif"] + (["ax_l3_real_trace"] if real_trace else [])
+    write(os.path.join(dst, "build.rs"), "fn main() {\n" + "".join("    println!(\"cargo:rustc-cfg=%s\");\n    println!(\"cargo:rustc-check-cfg=cfg(%s)\");\n" % (c, c) for c in cfgs) + "}\n")
+    shutil.copyfile(os.path.join(X.REPO, "Cargo.lock"), os.path.join(dst, "Cargo.lock"))
+    return extracted, meta
